@@ -1,5 +1,5 @@
-//go:build verif
-// +build verif
+//go:build verif && !race
+// +build verif,!race
 
 package netpoll
 
@@ -17,28 +17,6 @@ import (
 	"os"
 	"strings"
 )
-
-func vGenByte(seed, i int) byte { return byte(((seed+1)*31 + i*7 + i/13) % 251) }
-
-func vGenBytes(seed, n, c int) []byte {
-	if c < n {
-		c = n
-	}
-	p := make([]byte, n, c)
-	for i := range p {
-		p[i] = vGenByte(seed, i)
-	}
-	return p
-}
-
-func vFnv(bs []byte) uint32 {
-	h := uint32(2166136261)
-	for _, b := range bs {
-		h ^= uint32(b)
-		h *= 16777619
-	}
-	return h
-}
 
 func vDumpLB(id int, b *UnsafeLinkBuffer) string {
 	var sb strings.Builder
@@ -92,6 +70,7 @@ type vBuf struct {
 	needFlush     bool // an Append happened since the last Flush: reads are outside the contract
 	binSinceFlush bool // WriteBinary/WriteString since the last Flush
 	booked        bool // used through book/bookAck (input-buffer style)
+	written       bool // used through the Writer API (Malloc/Write*/Append): never mixed with book (contract clause 9)
 }
 
 type vWorld struct {
@@ -102,6 +81,7 @@ type vWorld struct {
 	valid  bool
 	capv   int
 	big    bool
+	own    *vOwn // non-nil: ownership oracle (C02/C03) is on
 }
 
 func (w *vWorld) dump(ids ...int) string {
@@ -113,8 +93,6 @@ func (w *vWorld) dump(ids ...int) string {
 	}
 	return strings.Join(parts, " | ")
 }
-
-func vBytesRes(p []byte) string { return fmt.Sprintf("ok b:%d:%d", len(p), vFnv(p)) }
 
 // exec runs one op line on the implementation and returns the reply line.
 func (w *vWorld) exec(toks []string) (reply string) {
@@ -157,7 +135,9 @@ func (w *vWorld) exec(toks []string) (reply string) {
 		errRes(err)
 	case "wbin":
 		n, seed, pc := atoi(toks[2]), atoi(toks[3]), atoi(toks[4])
-		k, err := b.WriteBinary(vGenBytes(seed, n, pc))
+		cp := vGenBytes(seed, n, pc)
+		k, err := b.WriteBinary(cp)
+		w.own.caller(cp)
 		res = fmt.Sprintf("ok n:%d", k)
 		errRes(err)
 	case "wstr":
@@ -169,7 +149,12 @@ func (w *vWorld) exec(toks []string) (reply string) {
 		errRes(b.WriteByte(byte(atoi(toks[2]))))
 	case "wdir":
 		n, seed, ec, remain := atoi(toks[2]), atoi(toks[3]), atoi(toks[4]), atoi(toks[5])
-		errRes(b.WriteDirect(vGenBytes(seed, n, ec), remain))
+		cp := vGenBytes(seed, n, ec)
+		errRes(b.WriteDirect(cp, remain))
+		w.own.caller(cp)
+		if remain > 0 {
+			w.own.markSplit(b)
+		}
 	case "ack":
 		errRes(b.MallocAck(atoi(toks[2])))
 	case "flush":
@@ -178,20 +163,24 @@ func (w *vWorld) exec(toks []string) (reply string) {
 		p, err := b.Next(atoi(toks[2]))
 		res = vBytesRes(p)
 		errRes(err)
+		w.own.view(id, p, false)
 	case "peek":
 		p, err := b.Peek(atoi(toks[2]))
 		res = vBytesRes(p)
 		errRes(err)
+		w.own.view(id, p, false)
 	case "skip":
 		errRes(b.Skip(atoi(toks[2])))
 	case "rbin":
 		p, err := b.ReadBinary(atoi(toks[2]))
 		res = vBytesRes(p)
 		errRes(err)
+		w.own.view(id, p, true)
 	case "rstr":
 		s, err := b.ReadString(atoi(toks[2]))
 		res = vBytesRes([]byte(s))
 		errRes(err)
+		w.own.view(id, unsafeStringToSlice(s), true)
 	case "rbyte":
 		c, err := b.ReadByte()
 		res = vBytesRes([]byte{c})
@@ -200,6 +189,7 @@ func (w *vWorld) exec(toks []string) (reply string) {
 		p, err := b.Until(byte(atoi(toks[2])))
 		res = vBytesRes(p)
 		errRes(err)
+		w.own.view(id, p, false)
 	case "read":
 		pl := atoi(toks[2])
 		if pl < 0 {
@@ -208,10 +198,13 @@ func (w *vWorld) exec(toks []string) (reply string) {
 		p := make([]byte, pl)
 		n := b.readCopy(p)
 		res = vBytesRes(p[:n])
+		w.own.view(id, p[:n], true)
 	case "rel":
 		errRes(b.Release())
+		w.own.released(id)
 	case "close":
 		errRes(b.Close())
+		w.own.released(id)
 	case "len":
 		res = fmt.Sprintf("ok n:%d", b.Len())
 	case "mlen":
@@ -227,6 +220,7 @@ func (w *vWorld) exec(toks []string) (reply string) {
 		vs := b.GetBytes(p)
 		var parts []string
 		for _, v := range vs {
+			w.own.view(id, v, false)
 			parts = append(parts, fmt.Sprintf("%d.%d", len(v), vFnv(v)))
 		}
 		res = fmt.Sprintf("ok v:%d:%s", len(vs), strings.Join(parts, ","))
@@ -255,6 +249,9 @@ func (w *vWorld) exec(toks []string) (reply string) {
 		} else {
 			w.bufs[nid] = &vBuf{b: r.(*LinkBuffer), child: atoi(toks[2]) > 0}
 			w.order = append(w.order, nid)
+			// "Slice will automatically execute a Release": earlier results of the parent end here
+			w.own.released(id)
+
 		}
 		touched = append(touched, nid)
 	case "app":
@@ -265,6 +262,8 @@ func (w *vWorld) exec(toks []string) (reply string) {
 		}
 		errRes(b.WriteBuffer(d.b))
 		touched = append(touched, did)
+		// the donor "can't be used after calling WriteBuffer": results obtained from it end here
+		w.own.released(did)
 	default:
 		return "bad-op"
 	}
@@ -337,6 +336,7 @@ func (w *vWorld) gen() string {
 		k := r.Intn(100)
 		switch {
 		case k < 14 && writable && !(vb.booked && w.valid):
+			vb.written = true
 			return fmt.Sprintf("mal %d %d %d", id, w.sizes(), r.Intn(1000))
 		case k < 20 && writable && !(vb.booked && w.valid):
 			n := w.sizes()
@@ -348,11 +348,13 @@ func (w *vWorld) gen() string {
 				pc = n + r.Intn(9000)
 			}
 			vb.binSinceFlush = vb.binSinceFlush || n > 0
+			vb.written = true
 			if r.Intn(2) == 0 {
 				return fmt.Sprintf("wstr %d %d %d", id, n, r.Intn(1000))
 			}
 			return fmt.Sprintf("wbin %d %d %d %d", id, n, r.Intn(1000), pc)
 		case k < 23 && writable && !(vb.booked && w.valid):
+			vb.written = true
 			return fmt.Sprintf("wbyte %d %d", id, r.Intn(251))
 		case k < 28 && writable && !(vb.booked && w.valid):
 			if w.valid && (vb.binSinceFlush || vb.needFlush) {
@@ -366,6 +368,7 @@ func (w *vWorld) gen() string {
 				remain = M + 1 + r.Intn(3) - r.Intn(2*M+4)
 			}
 			n := w.sizes()
+			vb.written = true
 			return fmt.Sprintf("wdir %d %d %d %d %d", id, n, r.Intn(1000), n+r.Intn(2)*r.Intn(100), remain)
 		case k < 34 && writable && !(vb.booked && w.valid):
 			if w.valid && vb.needFlush {
@@ -390,6 +393,7 @@ func (w *vWorld) gen() string {
 			if d == nil {
 				continue
 			}
+			vb.written = true
 			if d.b.Len()+d.b.MallocLen() > 0 {
 				d.dead = true
 				vb.needFlush = true
@@ -438,8 +442,9 @@ func (w *vWorld) gen() string {
 			}
 			return fmt.Sprintf("idx %d %d %d", id, r.Intn(251), sk)
 		case k < 99 && writable:
-			// input-buffer style use: only on buffers without pending mallocs
-			if w.valid && (M > 0 || vb.needFlush) {
+			// input-buffer style use: only on buffers never written through the Writer API
+			// (the connection's input buffer is filled by book/bookAck only)
+			if w.valid && (M > 0 || vb.needFlush || vb.written) {
 				continue
 			}
 			vb.booked = true
@@ -487,6 +492,7 @@ func VerifLBMain(args []string) int {
 	replay := fs.String("replay", "", "")
 	big := fs.Bool("big", false, "")
 	poison := fs.Bool("poison", false, "poison freed pool blocks")
+	ownOut := fs.String("own-out", "", "ownership oracle (C02/C03): one line of allocator events and problems per op")
 	if err := fs.Parse(args); err != nil {
 		return 2
 	}
@@ -501,6 +507,17 @@ func VerifLBMain(args []string) int {
 	defer iw.Flush()
 	saveCap := LinkBufferCap
 	defer func() { LinkBufferCap = saveCap }()
+	var ownW *bufio.Writer
+	if *ownOut != "" {
+		of, err := os.Create(*ownOut)
+		if err != nil {
+			fmt.Fprintln(os.Stderr, err)
+			return 2
+		}
+		defer of.Close()
+		ownW = bufio.NewWriter(of)
+		defer ownW.Flush()
+	}
 
 	if *replay != "" {
 		f, err := os.Open(*replay)
@@ -525,6 +542,10 @@ func VerifLBMain(args []string) int {
 				LinkBufferCap = c
 				mcache.VerifReset()
 				w = &vWorld{bufs: map[int]*vBuf{}, capv: c}
+				if ownW != nil {
+					w.own = newVOwn()
+					fmt.Fprintln(ownW, "seq")
+				}
 				dead = false
 				fmt.Fprintln(iw, "seq")
 				continue
@@ -534,6 +555,9 @@ func VerifLBMain(args []string) int {
 			}
 			if dead {
 				fmt.Fprintln(iw, "dead")
+				if ownW != nil {
+					fmt.Fprintln(ownW, "dead")
+				}
 				continue
 			}
 			rep := w.exec(toks)
@@ -541,6 +565,9 @@ func VerifLBMain(args []string) int {
 				dead = true
 			}
 			fmt.Fprintln(iw, rep)
+			if ownW != nil {
+				fmt.Fprintln(ownW, strings.TrimSpace(w.own.after(w)))
+			}
 		}
 		return 0
 	}
@@ -562,11 +589,18 @@ func VerifLBMain(args []string) int {
 		w := &vWorld{bufs: map[int]*vBuf{}, rnd: rnd, valid: *mode == "valid", capv: c, big: *big}
 		fmt.Fprintf(ow, "seq %d %d\n", s, c)
 		fmt.Fprintln(iw, "seq")
+		if ownW != nil {
+			w.own = newVOwn()
+			fmt.Fprintln(ownW, "seq")
+		}
 		for i := 0; i < *nops; i++ {
 			line := w.gen()
 			fmt.Fprintln(ow, line)
 			rep := w.exec(strings.Fields(line))
 			fmt.Fprintln(iw, rep)
+			if ownW != nil {
+				fmt.Fprintln(ownW, strings.TrimSpace(w.own.after(w)))
+			}
 			if rep == "panic" {
 				break
 			}
